@@ -1743,7 +1743,10 @@ func (c *Ctx) appendOneStruct(s *State, fr *Frame, x *ssa.Call, args []Val) []*S
 	}
 	el := dst.Ty.Underlying().(*types.Slice).Elem()
 	if structOf(el) == nil {
-		return nil
+		// scalar / interface / slice elements: forked only on request (opt forkappend), since each fork doubles the paths
+		if c.fc == nil || c.fc.Opts["forkappend"] == "" || isAggregate(el) {
+			return nil
+		}
 	}
 	src, ok := args[1].(SliceV)
 	if !ok || src.Len != c.ar.idx(1) {
@@ -1773,12 +1776,30 @@ func (c *Ctx) appendOneStruct(s *State, fr *Frame, x *ssa.Call, args []Val) []*S
 		newCap := c.freshConst(s2, "appcap", c.ar.idxSort())
 		c.assume(s2, c.idxCmp(token.GEQ, newCap, newLen))
 		c.assume(s2, c.idxCmp(token.LEQ, newCap, c.ar.idx(1<<40)))
-		c.copyStructElems(s2, fresh, dst, el)
+		if structOf(el) != nil {
+			c.copyStructElems(s2, fresh, dst, el)
+		} else {
+			c.copyScalarElems(s2, fresh, dst, el)
+		}
 		ptr := c.elemAddr(s2, fresh, dst.Len, el)
 		c.storeAt(s2, ptr, el, val)
 		f2.regs[x] = SliceV{fresh, c.ar.idx(0), newLen, newCap, dst.Ty}
 	}
 	return []*State{s1, s2}
+}
+
+// copyScalarElems: the first len(dst) elements of the fresh array (offset 0) equal dst's elements (non-struct elements).
+func (c *Ctx) copyScalarElems(s *State, fresh string, dst SliceV, el types.Type) {
+	for _, cp := range c.ar.comps(el) {
+		name := elemHeapName(el, cp.Path)
+		hs := c.elemHeapSort(cp.S)
+		h := c.heapTerm(s, name, hs)
+		inner := c.freshConst(s, "growelems", Sort(fmt.Sprintf("(Array %s %s)", c.ar.idxSort(), cp.S)))
+		k := "k"
+		c.assume(s, fmt.Sprintf("(forall ((k %s)) (! (=> (and %s %s) (= (select %s k) (select (select %s %s) %s))) :pattern ((select %s k))))",
+			c.ar.idxSort(), c.idxCmp(token.LEQ, c.ar.idx(0), k), c.idxCmp(token.LSS, k, dst.Len), inner, h, dst.Arr, c.elemIdx(dst.Off, k), inner))
+		c.setHeap(s, name, hs, fmt.Sprintf("(store %s %s %s)", h, fresh, inner))
+	}
 }
 
 // copyStructElems: the first len(dst) elements of the fresh array `fresh` (offset 0) equal dst's elements.
